@@ -3687,6 +3687,9 @@ class NameCheckVisitor(node_visitor.ReplacingNodeVisitor):
             positive = isinstance(op, ast.Eq)
             return Constraint(varname, ConstraintType.predicate, positive, predicate)
         elif isinstance(op, (ast.In, ast.NotIn)) and is_right:
+            if isinstance(other_val, (str, bytes, bytearray)):
+                # "x in 'ab'" tests for a substring, not for an element
+                return NULL_CONSTRAINT
             try:
                 predicate_vals = list(other_val)
                 predicate_types = {type(val) for val in predicate_vals}
